@@ -18,7 +18,7 @@ import time
 prop, m = sys.argv[1], sys.argv[2]
 tier = sys.argv[3] if len(sys.argv) > 3 else 'quick'
 check_props = sys.argv[4].split(',') if len(sys.argv) > 4 else [prop]
-src = f'/tmp/wt_out/{prop}/{m}'
+src = os.environ.get('MUT_ROOT', '/tmp/wt_out') + f'/{prop}/{m}'
 dst = f'/verif/seeded/{prop}-{m}'
 wt = f'/tmp/wtv_{prop}_{m}'
 PY = '/venv/bin/python'
